@@ -243,7 +243,7 @@ func VerifH10cQuotedLayout() {
 	n := verifrt.IntRange("qlen", 0, 3+verifrt.Tier())
 	q := verifrt.String("q", n)
 	for i := 0; i < n; i++ {
-		verifrt.Assume(zzIn(q[i], "a\n\\ #"))
+		verifrt.Assume(zzIn(q[i], "a\n\r\\ #"))
 	}
 	// a trailing backslash would escape the closing quote: that is a different text
 	verifrt.Assume(n == 0 || q[n-1] != '\\')
@@ -286,4 +286,81 @@ func VerifH10dEnv() {
 		verifrt.Assert(out == s, "no-reference-unchanged")
 	}
 	verifrt.Observe("out", out)
+}
+
+// VerifH10bTwoSnippets: two snippets, each imported by its own server block (the earlier-defined
+// one first), with directive lines after the imports: every block ends up with exactly the lines of
+// the snippet it imports followed by its own, in order -- the snippet bodies are not disturbed by the
+// splicing of earlier imports.
+func VerifH10bTwoSnippets() {
+	verifrt.Terminates()
+	verifrt.Budget(200000)
+	var toks []Token
+	line := 0
+	add := func(newline bool, texts ...string) {
+		if newline {
+			line++
+		}
+		for _, t := range texts {
+			toks = append(toks, Token{File: "Casketfile", Line: line, Text: t})
+		}
+	}
+	dirs := []string{"x", "y"}
+	args := []string{"1", "2"}
+	type ln struct{ dir, arg string }
+	bodies := make([][]ln, 2)
+	for k := 0; k < 2; k++ {
+		add(true, []string{"(s)", "(t)"}[k], "{")
+		n := verifrt.IntRange("bodylines", 1, 2)
+		for i := 0; i < n; i++ {
+			l := ln{dirs[verifrt.Choose("dir", 2)], args[verifrt.Choose("arg", 2)] + []string{"s", "t"}[k]}
+			bodies[k] = append(bodies[k], l)
+			add(true, l.dir, l.arg)
+		}
+		add(true, "}")
+	}
+	own := make([][]ln, 2)
+	order := []int{0, 1}
+	if verifrt.Bool("later-snippet-first") {
+		order = []int{1, 0}
+	}
+	for bi, k := range order {
+		add(true, []string{"a", "b"}[bi], "{")
+		add(true, "import", []string{"s", "t"}[k])
+		m := verifrt.IntRange("ownlines", 0, 2)
+		for i := 0; i < m; i++ {
+			l := ln{dirs[verifrt.Choose("owndir", 2)], "o" + []string{"a", "b"}[bi]}
+			own[bi] = append(own[bi], l)
+			add(true, l.dir, l.arg)
+		}
+		add(true, "}")
+	}
+	p := parser{Dispenser: NewDispenserTokens("Casketfile", toks)}
+	blocks, err := p.parseAll()
+	verifrt.Assert(err == nil, "well-formed-snippet-use-parses")
+	if err != nil {
+		return
+	}
+	verifrt.Assert(len(blocks) == 2, "two-server-blocks")
+	if len(blocks) != 2 {
+		return
+	}
+	for bi, k := range order {
+		want := map[string][]string{}
+		for _, l := range append(append([]ln{}, bodies[k]...), own[bi]...) {
+			want[l.dir] = append(want[l.dir], l.dir, l.arg)
+		}
+		got := blocks[bi].Tokens
+		verifrt.Assert(len(blocks[bi].Keys) == 1 && blocks[bi].Keys[0] == []string{"a", "b"}[bi], "block-keys-as-written")
+		verifrt.Assert(len(got) == len(want), "directives-as-written")
+		for d, w := range want {
+			g := got[d]
+			ok := len(g) == len(w)
+			for i := range w {
+				ok = ok && i < len(g) && g[i].Text == w[i]
+			}
+			verifrt.Assert(ok, "snippet-lines-then-own-lines-in-order")
+		}
+	}
+	verifrt.Observe("blocks", len(blocks))
 }
